@@ -944,59 +944,19 @@ def rule_solve_scalar(rep: Report, repo: Repo):
     rep.check(ok_sign, R, "second_quantization::solve_scalar solution coefficient = sign * coeff / denominator = coeff / (H_ii' - H_jj')", "", loc(lp))
     rep.check(set(signs) <= {1, -1}, R, "second_quantization::solve_scalar `sign` only takes the values +1 / -1", str(signs), loc(lp))
     # the shifts
-    def loop_as_dictcomp(dname):
-        """D = {}; for T in IT: [if C:] D[K] = V   ->   {K: V for T in IT if C}   (one store path per loop iteration)"""
-        inits = [s_ for s_ in lp.body if isinstance(s_, ast.Assign) and any(norm(t) == dname for t in s_.targets)]
-        if len(inits) != 1 or norm(inits[0].value) not in ("{}", "dict()"):
-            return None
-        fills = [s_ for s_ in lp.body if isinstance(s_, ast.For) and any(
-            isinstance(x, ast.Subscript) and isinstance(x.ctx, ast.Store) and norm(x.value) == dname for x in ast.walk(s_))]
-        if len(fills) != 1:
-            return None
-        L = fills[0]
-        found = []
-        for o in outcomes(L.body, None, env={}, expand=False):
-            for kind, st, rv in o.seq:
-                if kind == "assign" and isinstance(st, ast.Assign) and isinstance(st.targets[0], ast.Subscript) and norm(st.targets[0].value) == dname:
-                    # conditions that precede the store on this path
-                    lits = {}
-                    for k2, t2, p2 in o.seq:
-                        if k2 == "assign" and t2 is st:
-                            break
-                        if k2 == "cond":
-                            lits[(norm(t2), p2)] = t2 if p2 else ast.UnaryOp(op=ast.Not(), operand=t2)
-                    key = resolved(st.targets[0].slice, {k_: v_ for k_, v_ in o.env.items()})
-                    found.append((frozenset(lits), key, rv, lits))
-        if not found or len({(norm(k_), norm(v_)) for _c, k_, v_, _ in found}) != 1:
-            return None
-        # merge paths that differ in the polarity of one (irrelevant) condition
-        sets = {c for c, _k, _v, _l in found}
-        nodes = {}
-        for _c, _k, _v, l_ in found:
-            nodes.update(l_)
-        changed = True
-        while changed and len(sets) > 1:
-            changed = False
-            for a_ in list(sets):
-                for lit in a_:
-                    twin = (a_ - {lit}) | {(lit[0], not lit[1])}
-                    if twin in sets and twin != a_:
-                        sets -= {a_, twin}
-                        sets.add(a_ - {lit})
-                        changed = True
-                        break
-                if changed:
-                    break
-        if len(sets) != 1:
-            return None
-        conds = [nodes[l_] for l_ in sorted(next(iter(sets)))]
-        _c, key, val, _l = found[0]
-        return ast.DictComp(key=key, value=val, generators=[ast.comprehension(target=L.target, iter=L.iter, ifs=conds, is_async=0)])
-
     def shift_info(call):
+        from .sem import Scope, bind_args, dict_filled_by_loop
         arg = call.args[0] if len(call.args) == 1 else None
         if isinstance(arg, ast.Name):
-            arg = loop_as_dictcomp(arg.id)
+            arg = dict_filled_by_loop(lp.body, arg.id)
+        elif isinstance(arg, ast.Call) and isinstance(arg.func, ast.Name):
+            helper = Scope(repo.trees["second_quantization"]).get(arg.func.id)
+            if helper is not None and isinstance(helper.body[-1], ast.Return) and isinstance(helper.body[-1].value, ast.Name):
+                binding = bind_args(helper, arg)
+                if binding is not None:
+                    consts = {k: v.value for k, v in binding.items() if isinstance(v, ast.Constant) and isinstance(v.value, bool)}
+                    hatom = lambda n: consts.get(n.id) if isinstance(n, ast.Name) else None
+                    arg = dict_filled_by_loop(helper.body, helper.body[-1].value.id, {k: v for k, v in binding.items() if k not in consts}, hatom)
         if not isinstance(arg, ast.DictComp):
             raise AnalysisError(R, f"solve_scalar: the replacement passed to {norm(call.func.value)}.xreplace is neither a dict comprehension "
                                    "nor a dictionary filled by one loop: not understood")
@@ -1035,102 +995,125 @@ def rule_solve_scalar(rep: Report, repo: Repo):
                 return False
             return None
         outs = outcomes(f.body, None, env={}, atom=atom2, expand=False)
-        comp[diag] = sorted({norm(ev) for o in outs for ev in o.events if isinstance(ev, ast.AugAssign)})
+        got = {norm(ev) for o in outs for ev in o.events if isinstance(ev, ast.AugAssign)}
+        for o in outs:
+            for kind, st, rv in o.seq:
+                # `r = r - r.adjoint()` is the same completion as `r -= r.adjoint()`
+                if kind == "assign" and isinstance(st, ast.Assign) and isinstance(st.targets[0], ast.Name) and isinstance(st.value, ast.BinOp) \
+                        and isinstance(st.value.op, ast.Sub) and norm(st.value.left) == st.targets[0].id \
+                        and norm(st.value.right) == f"{st.targets[0].id}.adjoint()":
+                    got.add(f"{st.targets[0].id} -= {st.targets[0].id}.adjoint()")
+        comp[diag] = sorted(got)
     ok = ok_skip and comp[False] == [] and len(comp[True]) == 1 and _re.fullmatch(r"(\w+) -= \1\.adjoint\(\)", comp[True][0]) is not None
     rep.check(ok, R, "second_quantization::solve_scalar diagonal entries: solve half of the terms, complete with minus the adjoint (anti-Hermitian solution)",
               f"skipped: {sorted(k for k, r in results.items() if r == ('skip',))} (negative shift, diagonal); completion {comp}", loc(f))
 
-    # -- the matrix wrapper -------------------------------------------------------------------------------------------
+    # -- the matrix wrapper: run the element loops on a concrete 3 x 3 matrix -----------------------------------------
+    from .e2c import _const_eval
+    from .e5 import _int_eval, _range_values
     w = repo.find("second_quantization::solve_sylvester_2nd_quant", R)
     inner = [d for d in nested_defs(w) if d.name == "solve_sylvester"]
     if len(inner) != 1:
         raise AnalysisError(R, "solve_sylvester_2nd_quant: nested solver not found")
     inner = inner[0]
-    table = {}
+    NROW = 3
+    grid = {"Y.rows": NROW, "Y.cols": NROW, "Y.shape[0]": NROW, "Y.shape[1]": NROW}
     names = {}
+    table = {}
     for dblock in (False, True):
-        for rel in "<=>":
-            def blk(n):
-                """index[0] vs index[1] comparison -> bool"""
-                if isinstance(n, ast.Compare) and len(n.ops) == 1 and {norm(n.left), norm(n.comparators[0])} == {"index[0]", "index[1]"}:
-                    if isinstance(n.ops[0], ast.Eq):
-                        return dblock
-                    if isinstance(n.ops[0], ast.NotEq):
-                        return not dblock
-                return None
-            def atom_top(n):
-                t = norm(canon(n))
-                if t == "Y is zero":
-                    return False
-                return blk(n)
-            stores = []
-            tops = outcomes(inner.body, None, env={}, atom=atom_top, expand=False)
-            # free conditions at the top level (empty eigenvalue lists) do not change which loops run
-            loops_seen = {tuple(id(e) for e in o.events if isinstance(e, ast.For)) for o in tops if o.kind == "return"}
-            if len(loops_seen) != 1:
-                raise AnalysisError(R, "solve_sylvester_2nd_quant: which element loops run depends on an undecided condition")
-            rets_top = [o for o in tops if o.kind == "return"]
-            top = rets_top[0]
-            # only locals with the same resolved value on every path are substituted inside the loops
-            env_top = {k: v for k, v in top.env.items() if all(k in o.env and norm(o.env[k]) == norm(v) for o in rets_top)}
-            for ev in top.events:
-                if not isinstance(ev, ast.For):
-                    continue
-                if not (isinstance(ev.target, ast.Name) and norm(ev.iter) == "range(Y.rows)" and len(ev.body) == 1 and isinstance(ev.body[0], ast.For)
-                        and isinstance(ev.body[0].target, ast.Name) and norm(ev.body[0].iter) == "range(Y.cols)"):
-                    raise AnalysisError(R, f"solve_sylvester_2nd_quant: element loop `for {norm(ev.target)} in {norm(ev.iter)}` not understood")
-                I, J = ev.target.id, ev.body[0].target.id
-                names["ij"] = (I, J)
-                def atom_in(n, I=I, J=J):
-                    b = blk(n)
-                    if b is not None:
-                        return b
-                    if isinstance(n, ast.Compare) and len(n.ops) == 1 and {norm(n.left), norm(n.comparators[0])} == {I, J}:
-                        rels = {ast.Lt: "<", ast.LtE: "<=", ast.Gt: ">", ast.GtE: ">=", ast.Eq: "=", ast.NotEq: "<>"}.get(type(n.ops[0]))
-                        if rels is None:
-                            return None
-                        if norm(n.left) == J:
-                            rels = rels.translate(str.maketrans("<>", "><"))
-                        return rel in rels
-                    return None
-                env_in = {k: v for k, v in env_top.items() if k not in (I, J)}
-                outs = outcomes(ev.body[0].body, None, env=env_in, atom=atom_in, expand=False)
-                if len(outs) != 1:
-                    raise AnalysisError(R, "solve_sylvester_2nd_quant: element loop body has an undecided condition")
-                for kind, st, rv in outs[0].seq:
-                    if kind == "assign" and isinstance(st, ast.Assign) and isinstance(st.targets[0], ast.Subscript):
-                        val = rv
-                        if isinstance(val, ast.Call) and call_name(val) == "solve_scalar":
-                            kw = {k.arg: k.value for k in val.keywords}
-                            dg = eval_bool(kw["diagonal"], atom_in) if "diagonal" in kw else False
-                            args = [norm(a) for a in val.args]
-                            stores.append(("solve", norm(st.targets[0]), tuple(a.replace(I, "i").replace(J, "j") for a in args), dg))
-                            names.setdefault("eigs", set()).add((args[1].split("[")[0], args[2].split("[")[0]) if len(args) == 3 else ("?", "?"))
-                        else:
-                            stores.append(("fill", norm(st.targets[0]).replace(I, "i").replace(J, "j"), norm(val).replace(I, "i").replace(J, "j")))
-            table[(dblock, rel)] = stores
-    res_name = None
+        def blk(n, dblock=dblock):
+            """index[0] vs index[1] comparison -> bool"""
+            if isinstance(n, ast.Compare) and len(n.ops) == 1 and {norm(n.left), norm(n.comparators[0])} == {"index[0]", "index[1]"}:
+                if isinstance(n.ops[0], ast.Eq):
+                    return dblock
+                if isinstance(n.ops[0], ast.NotEq):
+                    return not dblock
+            return None
+        def atom_top(n):
+            t = norm(canon(n))
+            if t == "Y is zero":
+                return False
+            return blk(n)
+        tops = outcomes(inner.body, None, env={}, atom=atom_top, expand=False)
+        rets_top = [o for o in tops if o.kind == "return"]
+        # free conditions at the top level (empty eigenvalue lists) do not change which loops run
+        if len({tuple(id(e) for e in o.events if isinstance(e, ast.For)) for o in rets_top}) != 1:
+            raise AnalysisError(R, "solve_sylvester_2nd_quant: which element loops run depends on an undecided condition")
+        top = rets_top[0]
+        env_top = {k: v for k, v in top.env.items() if all(k in o.env and norm(o.env[k]) == norm(v) for o in rets_top)}
+        per_elem = {}
+        for ev in top.events:
+            if not isinstance(ev, ast.For):
+                continue
+            if not (isinstance(ev.target, ast.Name) and len(ev.body) == 1 and isinstance(ev.body[0], ast.For) and isinstance(ev.body[0].target, ast.Name)):
+                raise AnalysisError(R, f"solve_sylvester_2nd_quant: element loop `for {norm(ev.target)} in {norm(ev.iter)}` not understood")
+            I, J = ev.target.id, ev.body[0].target.id
+            rows = _range_values(ev.iter, grid)
+            if rows is None:
+                raise AnalysisError(R, f"solve_sylvester_2nd_quant: row range `{norm(ev.iter)}` not closed")
+            env_in = {k: v for k, v in env_top.items() if k not in (I, J)}
+            for i in rows:
+                cols = _range_values(ev.body[0].iter, {**grid, I: i})
+                if cols is None:
+                    raise AnalysisError(R, f"solve_sylvester_2nd_quant: column range `{norm(ev.body[0].iter)}` not closed")
+                for j in cols:
+                    sub = {**grid, I: i, J: j}
+                    def atom_in(n, sub=sub):
+                        b_ = blk(n)
+                        if b_ is not None:
+                            return b_
+                        return _const_eval(n, sub)
+                    outs = outcomes(ev.body[0].body, None, env=env_in, atom=atom_in, expand=False)
+                    if len(outs) != 1:
+                        raise AnalysisError(R, "solve_sylvester_2nd_quant: element loop body has an undecided condition")
+                    for kind, st, rv in outs[0].seq:
+                        if kind == "assign" and isinstance(st, ast.Assign) and isinstance(st.targets[0], ast.Subscript) \
+                                and isinstance(st.targets[0].slice, ast.Tuple) and len(st.targets[0].slice.elts) == 2:
+                            a_, b_ = (_int_eval(x, sub) for x in st.targets[0].slice.elts)
+                            if a_ is None or b_ is None:
+                                raise AnalysisError(R, "solve_sylvester_2nd_quant: store position not closed")
+                            ren = lambda t: t.replace(I, "i").replace(J, "j")
+                            if isinstance(rv, ast.Call) and call_name(rv) == "solve_scalar":
+                                kw = {k.arg: k.value for k in rv.keywords}
+                                dg = eval_bool(kw["diagonal"], atom_in) if "diagonal" in kw else False
+                                args = [norm(x) for x in rv.args]
+                                per_elem.setdefault((a_, b_), []).append(("solve", (i, j), tuple(ren(x) for x in args), dg))
+                                names.setdefault("eigs", set()).add((args[1].split("[")[0], args[2].split("[")[0]) if len(args) == 3 else ("?", "?"))
+                            else:
+                                src = None
+                                if isinstance(rv, ast.UnaryOp) and isinstance(rv.op, ast.USub) and isinstance(rv.operand, ast.Call) \
+                                        and isinstance(rv.operand.func, ast.Attribute) and rv.operand.func.attr == "adjoint" \
+                                        and isinstance(rv.operand.func.value, ast.Subscript) and norm(rv.operand.func.value.value) == norm(st.targets[0].value) \
+                                        and isinstance(rv.operand.func.value.slice, ast.Tuple):
+                                    src = tuple(_int_eval(x, sub) for x in rv.operand.func.value.slice.elts)
+                                per_elem.setdefault((a_, b_), []).append(("fill", src, norm(rv)))
+        table[dblock] = per_elem
     ok_solve, ok_fill = True, True
     detail = {}
-    for (dblock, rel), stores in table.items():
-        solves = [s for s in stores if s[0] == "solve"]
-        fills = [s for s in stores if s[0] == "fill"]
-        want_solve = (not dblock) or rel in "=>"
-        want_fill = dblock and rel == "<"
-        detail[(dblock, rel)] = [s[0] for s in stores]
-        if want_solve:
-            if not (len(solves) == 1 and len(solves[0][2]) == 3 and solves[0][2][0] == "Y[i, j]" and solves[0][2][1].endswith("[i]")
-                    and solves[0][2][2].endswith("[j]") and solves[0][3] == (dblock and rel == "=") and not fills):
-                ok_solve = False
-        else:
-            if solves:
-                ok_solve = False
-        if want_fill:
-            if not (len(fills) == 1 and _re.fullmatch(r"(\w+)\[i, j\]", fills[0][1]) and
-                    fills[0][2] == f"-{fills[0][1].split('[')[0]}[j, i].adjoint()"):
-                ok_fill = False
-        elif fills:
-            ok_fill = False
+    for dblock, per_elem in table.items():
+        for a_ in range(NROW):
+            for b_ in range(NROW):
+                stores = per_elem.get((a_, b_), [])
+                solves = [x for x in stores if x[0] == "solve"]
+                fills = [x for x in stores if x[0] == "fill"]
+                rel = "<" if a_ < b_ else ("=" if a_ == b_ else ">")
+                detail[(dblock, rel)] = [x[0] for x in stores]
+                want_solve = (not dblock) or a_ >= b_
+                want_fill = dblock and a_ < b_
+                if want_solve:
+                    if not (len(solves) == 1 and solves[0][1] == (a_, b_) and len(solves[0][2]) == 3 and solves[0][2][0] == "Y[i, j]"
+                            and solves[0][2][1].endswith("[i]") and solves[0][2][2].endswith("[j]")
+                            and solves[0][3] == (dblock and a_ == b_) and not fills):
+                        ok_solve = False
+                elif solves:
+                    ok_solve = False
+                if want_fill:
+                    # filled from the transposed, already solved element, after all solves (loop order: fills come in a later loop
+                    # or after the source element in the same sweep)
+                    if not (len(fills) == 1 and fills[0][1] == (b_, a_)):
+                        ok_fill = False
+                elif fills:
+                    ok_fill = False
     rep.check(ok_solve, R, "second_quantization::solve_sylvester_2nd_quant element (i, j) is solved with H_ii = eigs_A[i], H_jj = eigs_B[j]",
               f"(diagonal block, i ? j) -> stores {detail}; solved entries: all of an off-diagonal block, i >= j of a diagonal block, "
               "diagonal=True exactly on the diagonal of a diagonal block", loc(inner))
@@ -1141,5 +1124,6 @@ def rule_solve_scalar(rep: Report, repo: Repo):
         raise AnalysisError(R, "solve_sylvester_2nd_quant: energies passed to solve_scalar not understood")
     A, B = next(iter(e_names))
     un = [n for n in own_nodes(inner) if isinstance(n, ast.Assign) and isinstance(n.targets[0], ast.Tuple) and norm(n.targets[0]) == f"({A}, {B})"]
-    e = [norm(n.value) for n in un]
+    from .resolve import env_at as _env_at, rtext as _rtext
+    e = [_rtext(n.value, _env_at(n, inner)) for n in un]
     rep.check(e == ["(eigs[index[0]], eigs[index[1]])"], R, "second_quantization::solve_sylvester_2nd_quant eigs_A, eigs_B = eigs[index[0]], eigs[index[1]]", str(e), loc(inner))
